@@ -169,30 +169,7 @@ def compiles(cclog):
     return sorted(out)
 
 
-def gcc_depfile_roundtrip(hname, scratch, env, obj='main.o', enc='main.o'):
-    """reference without bfg9000: can make consume the depfile gcc writes for this header name
-    (and this object path, written `enc` in the hand-written Makefile)?"""
-    d = os.path.join(scratch, 'gccref')
-    shutil.rmtree(d, ignore_errors=True)
-    os.makedirs(d)
-    with open(os.path.join(d, hname), 'w') as f:
-        f.write('#define V 1\n')
-    with open(os.path.join(d, 'main.c'), 'w') as f:
-        f.write('#include "%s"\nint main(void){return V;}\n' % hname)
-    with open(os.path.join(d, 'Makefile'), 'w') as f:
-        q = c04.recipe_arg(obj)
-        f.write('%s: main.c\n\tgcc -c main.c -MMD -MF %s.d -o %s\n-include %s.d\n' % (enc, q, q, enc))
-    os.makedirs(os.path.dirname(os.path.join(d, obj)), exist_ok=True)
-    rc, out = c04.run_make(d, env)
-    if rc != 0:
-        return False
-    m1 = os.stat(os.path.join(d, obj)).st_mtime_ns
-    rc, out = c04.run_make(d, env)
-    if rc != 0 or os.stat(os.path.join(d, obj)).st_mtime_ns != m1:
-        return False
-    proj.modify(os.path.join(d, hname))
-    rc, out = c04.run_make(d, env)
-    return rc == 0 and os.stat(os.path.join(d, obj)).st_mtime_ns != m1
+gcc_depfile_roundtrip = c04.gcc_depfile_roundtrip
 
 
 def _explore(arg):
